@@ -9,8 +9,8 @@ driver REJECTS a ratio that is not a representable double of the model (never ro
   {"op":"sum","vals":[[n,d],…]}                                      -> {"r":[n,d]}     (CPython sum)
   {"op":"formula","hardMean":[n,d],"repMean":[n,d],"softMean":[n,d],"h":…,"r":…,"s":…,"expected":[n,d]}
                                                                      -> {"fitness":[n,d],"accept":bool}
-  {"op":"eval","expected":[n,d],"seq":[{"key":k,"hard":[C…],"rep":[C…],"s":n,"softMean":[n,d]},…]}
-     C = ["cf",solved,total] | ["da",[[n,d],…]] | ["val",[n,d]] | ["raise"]
+  {"op":"eval","expected":[n,d],"detail":bool?,"seq":[{"key":k,"hard":[C…],"rep":[C…],"s":n,"softMean":[n,d]},…]}
+     C = ["cf",solved,total] | ["da",[[n,d],…]] | ["val",[n,d]] | ["raise"] | ["rep",count,C] (run-length)
                                                                      -> {"steps":[{"emitted":bool,"fitness":[n,d],
                                                                           "hardMean":[n,d],"repMean":[n,d]},…]}
 -/
@@ -65,36 +65,48 @@ def exactOf (f : String) (a b : F) : Rat :=
   | "mul" => a.toRat * b.toRat
   | _ => a.toRat / b.toRat
 
-def constraintOf (j : Json) : Except String (Option F) := do
+partial def constraintsOf (j : Json) : Except String (List (Option F)) := do
   let a ← j.getArr?
   let tag ← (a[0]?.getD Json.null).getStr?
   match tag with
-  | "cf" => return some (cfFitness (← natOf (a[1]?.getD Json.null)) (← natOf (a[2]?.getD Json.null)))
+  | "cf" => return [some (cfFitness (← natOf (a[1]?.getD Json.null)) (← natOf (a[2]?.getD Json.null)))]
   | "da" =>
     let vs ← (a[1]?.getD Json.null).getArr?
-    return some (daFitness (← vs.toList.mapM fOf))
-  | "val" => return some (← fOf (a[1]?.getD Json.null))
-  | "raise" => return none
+    return [some (daFitness (← vs.toList.mapM fOf))]
+  | "val" => return [some (← fOf (a[1]?.getD Json.null))]
+  | "raise" => return [none]
+  | "rep" =>          -- run-length: ["rep", n, C]
+    let n ← natOf (a[1]?.getD Json.null)
+    let c ← constraintsOf (a[2]?.getD Json.null)
+    match c with
+    | [x] => return List.replicate n x
+    | _ => throw "nested run-length group"
   | _ => throw s!"unknown constraint result {tag}"
+
+def constraintList (j : Json) : Except String (List (Option F)) := do
+  let xs ← (← j.getArr?).toList.mapM constraintsOf
+  return xs.flatten
 
 def individualOf (j : Json) : Except String Individual := do
   let key ← intOf (← j.getObjVal? "key")
-  let hard ← (← (← j.getObjVal? "hard").getArr?).toList.mapM constraintOf
-  let rep ← (← (← j.getObjVal? "rep").getArr?).toList.mapM constraintOf
+  let hard ← constraintList (← j.getObjVal? "hard")
+  let rep ← constraintList (← j.getObjVal? "rep")
   let s ← natOf (← j.getObjVal? "s")
   let sm ← fOf (← j.getObjVal? "softMean")
   return ⟨key, hard, rep, s, sm⟩
 
-def evalSeq (expected : F) : EvalState → List Individual → List Json
+def evalSeq (expected : F) (detail : Bool) : EvalState → List Individual → List Json
   | _, [] => []
   | st, ind :: rest =>
     let r := evaluateIndividual expected st ind
-    Json.mkObj [("emitted", Json.bool (!r.emitted.isEmpty)), ("fitness", jF r.fitness),
-                ("hardMean", jF (classMean ind.hard)), ("repMean", jF (classMean ind.rep)),
-                ("results", Json.arr ((ind.hard ++ ind.rep).map (fun o => match o with
-                  | some f => jF f
-                  | none => Json.null)).toArray)]
-      :: evalSeq expected r.state rest
+    let base := [("emitted", Json.bool (!r.emitted.isEmpty)), ("fitness", jF r.fitness)]
+    let more := if detail then
+        [("hardMean", jF (classMean ind.hard)), ("repMean", jF (classMean ind.rep)),
+         ("results", Json.arr ((ind.hard ++ ind.rep).map (fun o => match o with
+            | some f => jF f
+            | none => Json.null)).toArray)]
+      else []
+    Json.mkObj (base ++ more) :: evalSeq expected detail r.state rest
 
 def handle (j : Json) : Except String Json := do
   let op ← j.getObjValAs? String "op"
@@ -135,7 +147,8 @@ def handle (j : Json) : Except String Json := do
   | "eval" =>
     let e ← fOf (← j.getObjVal? "expected")
     let inds ← (← (← j.getObjVal? "seq").getArr?).toList.mapM individualOf
-    return Json.mkObj [("steps", Json.arr (evalSeq e EvalState.empty inds).toArray)]
+    let detail := (j.getObjValAs? Bool "detail").toOption.getD false
+    return Json.mkObj [("steps", Json.arr (evalSeq e detail EvalState.empty inds).toArray)]
   | _ => throw s!"unknown op {op}"
 
 def main : IO Unit := run handle
